@@ -19,7 +19,7 @@ PROP = {
         "HAProxy's regex engine (map_reg: unanchored search, case-sensitive) is approximated by Go regexp (RE2); an expression Go cannot compile counts as matching nothing",
         "the per-filter loop of HandlingDataManager.buildHAProxyFlowsEndpointsRequest (unexported; one HaproxyEndpointFormat per GetSupportedMethods(), manage-all when IsAnyURLAccepted()) is restated in the harness around the real translation and the real Filter methods; policies use the exported BuildHAProxyEndpointsRequest",
         "only the required direction is checked (engine matches => registered); a registration that covers more than the engine matches is accepted",
-        "a transaction the engine selects although the pattern does not match it under any reading (extra trailing segment, empty segment for a {param}, other method - C03/C13 territory) is not required to be registered; it is counted, not judged",
+        "reading of a pattern: literal host labels are compared case-insensitively (RFC 3986), path segments exactly; requests include the configured URL with its host in another letter case (the proxy's map_reg is case-sensitive); a transaction the engine selects although the pattern does not match it under any reading (extra trailing segment, empty segment for a {param}, other method - C03/C13 territory) is not required to be registered; it is counted, not judged",
         "filters carry no header / query / status constraints and no sampling (they can only narrow the engine's verdict)",
         "flows are harness stubs of the exported FlowI carrying real streamconfig.Filter values; requests are real APIStreams",
     ],
